@@ -3,6 +3,9 @@ package props
 import (
 	"encoding/json"
 	"fmt"
+	"go/ast"
+	"go/parser"
+	"go/token"
 	"os"
 	"path"
 	"regexp"
@@ -184,6 +187,55 @@ func c17CompareSuppress(before, after []engine.Diag, file string, line int, code
 	return strings.Join(probs, "; ")
 }
 
+
+// c17SiblingBlock inserts `// @ignore <other code of d's category>` as a line of its
+// own in front of the top-level declaration (its doc comment included) that holds d's
+// line; it returns the new sources and d's shifted line, or nil.
+func c17SiblingBlock(src map[string]string, d engine.Diag) (map[string]string, int) {
+	if len(d.Code) < 6 {
+		return nil, 0
+	}
+	sib := d.Code[:len(d.Code)-1] + "1"
+	if sib == d.Code {
+		sib = d.Code[:len(d.Code)-1] + "2"
+	}
+	fset := token.NewFileSet()
+	f, err := parser.ParseFile(fset, d.File, src[d.File], parser.ParseComments)
+	if err != nil {
+		return nil, 0
+	}
+	for _, dc := range f.Decls {
+		from, to := fset.Position(dc.Pos()).Line, fset.Position(dc.End()).Line
+		var doc *ast.CommentGroup
+		switch x := dc.(type) {
+		case *ast.FuncDecl:
+			doc = x.Doc
+		case *ast.GenDecl:
+			doc = x.Doc
+			if x.Tok == token.IMPORT {
+				continue
+			}
+		}
+		if doc != nil {
+			from = fset.Position(doc.Pos()).Line
+		}
+		if d.Line < fset.Position(dc.Pos()).Line || d.Line > to {
+			continue
+		}
+		ls := strings.Split(src[d.File], "\n")
+		out := append([]string{}, ls[:from-1]...)
+		out = append(out, "// @ignore "+sib)
+		out = append(out, ls[from-1:]...)
+		with := map[string]string{}
+		for k, v := range src {
+			with[k] = v
+		}
+		with[d.File] = strings.Join(out, "\n")
+		return with, d.Line + 1
+	}
+	return nil, 0
+}
+
 func init() {
 	replayers["c17"] = func(data json.RawMessage) string {
 		var c c17Case
@@ -355,6 +407,15 @@ func TestC17(t *testing.T) {
 				}
 				sc := c
 				sc.File, sc.Line, sc.Code = d.File, d.Line, d.Code
+				// 30 %: the enclosing top-level declaration first receives a block-level
+				// `// @ignore <sibling code of the same category>`; the inline comment appended
+				// next is then a marker nested in one that does not cover its code
+				if rapid.IntRange(0, 9).Draw(rt, "siblingBlock") < 3 {
+					if with, line := c17SiblingBlock(src, d); with != nil {
+						sc.Sources, sc.Line = with, line
+						ev.Class(id, "append step inside a declaration under a block-level @ignore of a sibling code")
+					}
+				}
 				why := c17Suppress(sc)
 				if strings.HasPrefix(why, "SKIP") {
 					ev.Class(id, "append step skipped (line already has a comment)")
